@@ -760,7 +760,7 @@ func (c *Ctx) vertexOfValue(e ssa.Value) ssa.Value {
 		return nil
 	}
 	direct := func(cl *ssa.Call) ssa.Value {
-		if !cl.Common().IsInvoke() || cl.Common().Method.Name() != "value" {
+		if !cl.Common().IsInvoke() || cl.Common().Method.Name() != c.P.ValuerMethodName() {
 			return nil
 		}
 		switch x := cl.Common().Value.(type) {
@@ -809,7 +809,7 @@ func (c *Ctx) runValueOf() {
 		if !kinds.Label(k) {
 			continue
 		}
-		m := p.Method(p.Arg, k, "value")
+		m := p.Method(p.Arg, k, p.ValuerMethodName())
 		if m == nil {
 			c.R.Undecided("UNSAT-U8", k+"|value", k, "-", "vertex kind "+k+" has no value() method")
 			continue
